@@ -275,9 +275,24 @@ def dedup {α} [DecidableEq α] : List α → List α
   | [] => []
   | a :: l => if a ∈ l then dedup l else a :: dedup l
 
-/-- schema.go `buildRels`: the set of normalised relationships. -/
+/-- The relationships of the target type that point back at `r` of type `t`: the
+matching criterion of `Check` (`checkInverse`), which `buildRels` uses too. -/
+def backRels (s : Schema) (t : Typ) (r : Rel) : List Rel :=
+  (s.getType r.toType).rels.vals.filter (fun inv =>
+    decide (inv.fromName = r.toName ∧ inv.toName = r.fromName ∧ inv.toType = t.name))
+
+/-- schema.go `buildRels`, the completion of one relationship before it is normalised:
+the cardinality of the other side of a two-way relationship is the one its inverse(s)
+declare - `FromOne` becomes the conjunction of their `ToOne` - when at least one exists.
+A one-way relationship, and one that nothing points back at, is left as it is. -/
+def complete (s : Schema) (t : Typ) (r : Rel) : Rel :=
+  if r.toName = [] then r
+  else if (backRels s t r).isEmpty then r
+  else { r with fromOne := (backRels s t r).all (·.toOne) }
+
+/-- schema.go `buildRels`: the set of completed, normalised relationships. -/
 def relSet (s : Schema) : List Rel :=
-  dedup (s.types.flatMap (fun t => t.rels.vals.map Rel.normalize))
+  dedup (s.types.flatMap (fun t => t.rels.vals.map (fun r => (complete s t r).normalize)))
 
 /-- schema.go `Rels`: the set sorted by `relLess`. -/
 def relsSorted (s : Schema) : List Rel := (relSet s).mergeSort Rel.le
